@@ -402,6 +402,16 @@ def batch_scenarios(ctx):
         dis += 1
         ctx.violation("names:clash-not-rejected:size-param", f"size parameter and placeholder both named 'x': got {e!r}", {})
     # (b) Named yields exactly that name or an error
+    import loopy as lp
+    from pytato.loopy import call_loopy
+    from pytato.target.loopy import LoopyPyOpenCLTarget
+    _knl = lp.make_kernel("{[i]: 0<=i<4}", "out[i] = 2*a[i] + 1",
+                          [lp.GlobalArg("a", dtype=np.float64, shape=(4,)),
+                           lp.GlobalArg("out", dtype=np.float64, shape=(4,), is_input=False)],
+                          name="callee", lang_version=(2018, 2), target=LoopyPyOpenCLTarget().get_loopy_target())
+
+    def _lpcall(arg):
+        return call_loopy(_knl, {"a": arg}, "callee")
     jobs, meta = [], []
     x = pt.make_placeholder("x", (4,), np.float64)
     y = pt.make_placeholder("y", (4,), np.float64)
@@ -454,6 +464,16 @@ def batch_scenarios(ctx):
         "named-suffixed-and-named-plain": pt.make_dict_of_named_arrays(
             {"o": (lambda p: p + (2 * p).tagged((Named("tmp"), ImplStored())))(
                 (x + 1).tagged((Named("tmp_0"), ImplStored())))}),
+        # a hand-written loopy kernel in the graph (the callee is merged into the translation unit half-way through
+        # code generation): names reserved up front (inputs, output keys) must stay reserved afterwards
+        "loopy-call-then-prefix-equals-output": pt.make_dict_of_named_arrays(
+            {"res": _lpcall(x)["out"] + (y + 1).tagged((PrefixNamed("res"), ImplStored())) * 2}),
+        "loopy-call-then-prefix-equals-later-input": pt.make_dict_of_named_arrays(
+            {"o": _lpcall(x)["out"] + (x * 3).tagged((PrefixNamed("y"), ImplStored())) * y}),
+        "loopy-call-then-named-equals-output": pt.make_dict_of_named_arrays(
+            {"res": _lpcall(x)["out"] + (y + 1).tagged((Named("res"), ImplStored())) * 2}),
+        "loopy-call-output-named-like-callee-arg": pt.make_dict_of_named_arrays(
+            {"a": _lpcall(x)["out"] * 2, "out": _lpcall(y)["out"] + 1}),
         "two-unnamed-dws": pt.make_dict_of_named_arrays(
             {"o": pt.make_data_wrapper(data) + pt.make_data_wrapper(data * 2) + x}),
         "same-array-two-keys": pt.make_dict_of_named_arrays({"o": x + y, "p": x + y}),
@@ -481,7 +501,7 @@ def batch_scenarios(ctx):
             if nm in ("dw-named-equals-input", "prefix-then-named-same-name", "named-then-prefix-same-name",
                       "named-temp-equals-output-key", "dw-prefix-equals-temp-named", "prefix-suffixed-then-named",
                       "named-then-prefix-suffixed", "dw-named-next-to-suffixed-prefix",
-                      "named-suffixed-and-named-plain") and r.error_class == "ValueError":
+                      "named-suffixed-and-named-plain", "loopy-call-then-named-equals-output") and r.error_class == "ValueError":
                 continue        # "a Named tag yields exactly that name or an error"
             if nm.startswith("reserved-input-name") and r.stage in ("generate", "prep"):
                 continue        # rejected: allowed
@@ -523,6 +543,66 @@ def batch_scenarios(ctx):
                 break
     ctx.note_batch("naming-scenarios", cases, dis, exhaustive=False, scenarios=sorted(scen))
 
+def batch_numpy_target_names(ctx):
+    """the NumPy-like target puts user names into the same Python scope as the identifiers every generated module
+    introduces (`np`, the module shorthand, the entry point's name): either a diagnostic at generation time, or a
+    program that computes the right values — never a user array that silently shadows a generated identifier"""
+    import pytato as pt
+    from .. import pytarget
+    from ..refeval import close, evaluate
+    from pytato.target.python.numpy_like import generate_numpy_like
+    tgt = pytarget.numpy_target()
+    gen_ids = ["np", "numpy", "knl", "dtype", "float32", "reshape", "_", "e", "where", "sum", "int", "len", "tuple"]
+    cases = dis = rejected = 0
+
+    def graphs(nm, role):
+        a = pt.make_placeholder(nm if role == "placeholder" else "u", (4,), np.float32)
+        b = pt.make_placeholder("v", (2, 2), np.float64)
+        w = pt.make_data_wrapper(np.arange(4, dtype=np.float32) + 2, tags=frozenset(
+            {pt.tags.Named(nm)} if role == "named-data" else ()))
+        typed = a * np.float32(1.5) + pt.ones((4,), np.float32) + w           # needs `np.` in the generated text
+        other = pt.sum(b.reshape(4) * a) + pt.where(pt.greater(a, 1), a, w)[0]
+        keys = (nm, "o2") if role == "output" else ("o1", "o2")
+        return pt.make_dict_of_named_arrays({keys[0]: typed, keys[1]: other})
+    for nm in gen_ids:
+        for role in ("placeholder", "output", "named-data", "function-name"):
+            cases += 1
+            expr = graphs(nm, role)
+            fname = nm if role == "function-name" else "knl"
+            if role == "function-name" and nm == "knl":
+                continue
+            try:
+                prog = generate_numpy_like(expr, tgt, fname, False, (), ())
+            except (ValueError, pt.diagnostic.NameClashError) as e:
+                rejected += 1
+                continue
+            except Exception as e:   # noqa: BLE001
+                dis += 1
+                ctx.violation(f"names:numpy-target:{role}:{nm}:crash:{type(e).__name__}",
+                              f"NumPy-like target, {role} called {nm!r}: generation failed with {type(e).__name__}: "
+                              f"{str(e)[:200]} (neither a naming diagnostic nor a program)", {"name": nm, "role": role})
+                continue
+            inputs = {(nm if role == "placeholder" else "u"): np.arange(4, dtype=np.float32) - 1,
+                      "v": np.arange(4.0).reshape(2, 2) + 0.5}
+            ref = evaluate(expr, inputs)
+            try:
+                got = prog(**inputs)
+            except Exception as e:   # noqa: BLE001
+                dis += 1
+                ctx.violation(f"names:numpy-target:{role}:{nm}:accepted-then-fails",
+                              f"NumPy-like target accepted a {role} called {nm!r}, and the generated program fails: "
+                              f"{type(e).__name__}: {str(e)[:160]} (the user name merged with a generated identifier)",
+                              {"name": nm, "role": role, "program": prog.program})
+                continue
+            bad = [k for k in ref if k not in got or not close(got[k], ref[k])]
+            if bad:
+                dis += 1
+                ctx.violation(f"names:numpy-target:{role}:{nm}:wrong-values",
+                              f"NumPy-like target accepted a {role} called {nm!r}; outputs {bad} differ from the "
+                              "reference", {"name": nm, "role": role, "program": prog.program})
+    ctx.note_batch("numpy-target-names", cases, dis, exhaustive=False, rejected_with_diagnostic=rejected,
+                   identifiers=gen_ids)
+
 
 def run(ctx: common.Ctx):
     ctx.assumptions += [
@@ -534,6 +614,7 @@ def run(ctx: common.Ctx):
     batch_adversarial(ctx)
     batch_adversarial_tags(ctx)
     batch_scenarios(ctx)
+    batch_numpy_target_names(ctx)
     ctx.broken = sorted(set(ctx.broken))[:50]
 
 
